@@ -13,6 +13,15 @@
 //  (e) the current file fs.name is not "__standards__"          (needed for (d) to be inductive: breakpoint() labels with fs);
 //  (f) code is not empty and code[0] is not a POTENTIAL_BREAK    (needed for back() in getMarkPos/removeTopPotBreak: code[0]
 //      is the PREPARE_EXEC of the root routine and removeTopPotBreak pops breakpoint instructions only).
+// The predicate reads the real containers slot by slot (as a range-for would) and compares with ==; the ordered look-ups
+// (find / operator[] / erase) are executed by the code under test only.  That the slots of a map are sorted by key is the
+// representation invariant of the container: it holds by construction in the pre-state and is kept by the container model.
+//
+// Entries: h_breakpoint, h_remove_top, h_advance_line, h_mark_pos, h_emit (one call from an arbitrary Inv_tab state each),
+// h_factories (premise of h_emit), h_base (the state Theo::gen() starts from; gen_ast() replaced by the observer stub_gen_ast).
+// A layer-C entry (whole real gen() on a hand-built tree with symbolic node labels) was tried and removed: CBMC 6.11 does not
+// finish symbolic execution within 300 s even for a one-statement tree; props/c08.py compiles tricky layouts natively instead.
+// The harness is written against the container model only (job option native=False).
 #include "Compiler/src/gen.cpp"
 
 extern "C" { int nondet_int(); }
@@ -34,7 +43,6 @@ extern "C" {
 int CEX_n, CEX_nsite, CEX_nloc, CEX_fs_file, CEX_fs_line, CEX_arg_file, CEX_arg_line, CEX_arg_op;
 int CEX_op[CODE_CAP], CEX_site[SITE_CAP], CEX_site_file[SITE_CAP], CEX_site_line[SITE_CAP];
 int CEX_loc_file[LOC_CAP], CEX_loc_line[LOC_CAP], CEX_loc_n[LOC_CAP], CEX_loc_sites[LOC_CAP * IVEC_CAP];
-int CEX_node_file[8], CEX_node_line[8];
 }
 
 static const char *const STD = "__standards__";
@@ -225,7 +233,6 @@ static GenState fresh_state() {
   return gs;
 }
 
-#ifndef GEN_WHOLE
 // ---------------------------------------------------------------------------------------------------------
 extern "C" void h_breakpoint() {
   GenState gs = fresh_state(); sym_state(gs);
@@ -287,9 +294,11 @@ extern "C" void h_advance_line() {
     ASSERT(m == (int)pre.code.size() && has && same_bp(bp, there), "C08: right after advanceLine() emitted a site, getMarkPos() is that site");
   }
   ASSERT(inv_tab(gs.out, gs.fs), "C08: Inv_tab preserved by advanceLine(); in particular no site is labelled __standards__");
-  ASSERT(!hidden, "C08(EXISTS): the call with file __standards__ is inside the bounds");
-  ASSERT(!same_place, "C08(EXISTS): the call onto the current position is inside the bounds");
-  ASSERT(hidden || same_place || !pb_has(pre.potential_breaks, BreakPoint{file, al}) , "C08(EXISTS): a call that re-enters a line which already owns a site");
+  // existential side: every case of the specification is inside the bounds
+  ASSERT(!hidden, "C08(EXISTS): a call with file __standards__");
+  ASSERT(!same_place, "C08(EXISTS): a call onto the current position");
+  ASSERT(hidden || same_place || !pb_has(pre.potential_breaks, BreakPoint{file, al}), "C08(EXISTS): a call that re-enters a line which already owns a site");
+  ASSERT(hidden || file == fs0.name, "C08(EXISTS): a call that changes the file");
   ASSERT(0, "WITNESS: end of h_advance_line reachable");
 }
 
@@ -325,6 +334,19 @@ extern "C" void h_emit() {
 }
 
 // ---------------------------------------------------------------------------------------------------------
+// premise of h_emit: the instructions gen.cpp hands to emit() outside breakpoint() come from these factories (syntactic
+// check in props/c08.py); none of them yields a POTENTIAL_BREAK, whatever the operands
+extern "C" void h_factories() {
+  int a = nondet_int(), b = nondet_int(), c = nondet_int();
+  bool none = !is_pb(Instruction::Halt()) && !is_pb(Instruction::Break()) && !is_pb(Instruction::Test(a, b, c)) && !is_pb(Instruction::Add(a, b, c)) &&
+              !is_pb(Instruction::Jmp(a)) && !is_pb(Instruction::JmpC(a, b)) && !is_pb(Instruction::PrepareExec(a, b, c)) && !is_pb(Instruction::Arg(a, b)) &&
+              !is_pb(Instruction::Exec(a)) && !is_pb(Instruction::Ret(a)) && !is_pb(Instruction::LoadConstant(a, b));
+  ASSERT(none, "C08: no instruction factory other than PotentialBreak() yields a POTENTIAL_BREAK");
+  ASSERT(is_pb(Instruction::PotentialBreak()), "C08: PotentialBreak() yields a POTENTIAL_BREAK");
+  ASSERT(0, "WITNESS: end of h_factories reachable");
+}
+
+// ---------------------------------------------------------------------------------------------------------
 // base case: the state Theo::gen() constructs and hands to gen_ast() (gen_ast is replaced by this observer in the job's build)
 static int base_seen;
 extern "C" void stub_gen_ast(GenState &gs) {
@@ -340,51 +362,7 @@ extern "C" void h_base() {
   CodegenResult r = Theo::gen(a);
   ASSERT(base_seen == 1, "C08: gen() runs the traversal exactly once, from the constructed state");
   FileState any = {.name = "a", .line = 0};
-  ASSERT(inv_tab(r.code, any), "C08: what gen() does after the traversal (root stack map, HALT, backpatching) keeps Inv_tab");
+  ASSERT(inv_tab(r.code, any), "C08: gen() on an empty traversal returns a program that satisfies Inv_tab (root stack map, HALT, backpatching touch no table)");
   ASSERT(0, "WITNESS: end of h_base reachable");
 }
 
-#else
-// ---------------------------------------------------------------------------------------------------------
-// Layer C: the whole real generator on one small concrete tree  x := y; y := x  whose nodes carry SYMBOLIC labels
-// (file in {"m","i"}, for the two value nodes also "__standards__"; line in {1,2,3}).
-static std::string gname(int f) { return f == 0 ? std::string("m") : f == 1 ? std::string("i") : std::string(STD); }
-extern "C" void h_gen_small() {
-  init_names();
-  AST a; a.parsed_correctly = true; a.root = NULL;
-  int fl[8], ln[8];
-  for (int k = 0; k < 8; k++) {
-    fl[k] = nondet_int(); ln[k] = nondet_int();
-    ASSUME(fl[k] >= 0 && fl[k] <= ((k == 3 || k == 7) ? 2 : 1)); ASSUME(ln[k] >= 1 && ln[k] <= 3);
-    CEX_node_file[k] = fl[k]; CEX_node_line[k] = ln[k];
-  }
-  Node *x1 = a.mk(Node::Type::NAME, ln[2], gname(fl[2]), "x", NULL, NULL);
-  Node *y1 = a.mk(Node::Type::NAME, ln[3], gname(fl[3]), "y", NULL, NULL);
-  Node *a1 = a.mk(Node::Type::ASSIGN, ln[1], gname(fl[1]), "", x1, y1);
-  Node *s2 = NULL;
-#if GEN_WHOLE >= 2
-  Node *y2 = a.mk(Node::Type::NAME, ln[6], gname(fl[6]), "y", NULL, NULL);
-  Node *x2 = a.mk(Node::Type::NAME, ln[7], gname(fl[7]), "x", NULL, NULL);
-  Node *a2 = a.mk(Node::Type::ASSIGN, ln[5], gname(fl[5]), "", y2, x2);
-  s2 = a.mk(Node::Type::SPLIT, ln[4], gname(fl[4]), "", a2, NULL);
-#endif
-  Node *s1 = a.mk(Node::Type::SPLIT, ln[0], gname(fl[0]), "", a1, s2);
-  a.root = s1;
-  CodegenResult r = Theo::gen(a);
-  ASSERT(r.generated_correctly, "C08: (harness) the tree is accepted");
-  FileState any = {.name = "a", .line = 0};
-  ASSERT(inv_tab(r.code, any), "C08: tables of the generated program are inverse, sites == POTENTIAL_BREAK instructions, no __standards__ (whole gen(), symbolic labels)");
-  // every location is the label of a node the traversal visits (nodes 0,1,3,4,5,7: statements and values)
-  bool all = true;
-  for (int j = 0; j < LOC_CAP; j++) if (j < (int)r.code.potential_breaks.size()) {
-    const BreakPoint &bp = r.code.potential_breaks.u.d[j].first;
-    bool some = false;
-    for (int k = 0; k < (GEN_WHOLE >= 2 ? 8 : 4); k++) if (k != 2 && k != 6 && fl[k] != 2 && bp.line == ln[k] && bp.file == gname(fl[k])) some = true;
-    all = all && some;
-  }
-  ASSERT(all, "C08: every available location is the (file, line) label of a node of the tree");
-  // and the first statement's line is available (the tables are not trivially empty)
-  ASSERT(r.code.potential_breaks.contains(BreakPoint{gname(fl[0]), ln[0]}), "C08: the line of the first statement is an available location");
-  ASSERT(0, "WITNESS: end of h_gen_small reachable");
-}
-#endif
